@@ -14,7 +14,8 @@ from .. import core
 from .c13 import export_words  # noqa: F401  (worker entry point lives in c13)
 
 LEVEL = "model_checking"
-CFG = "SPECIFICATION Spec\nCONSTANTS\n  AsciiOnlyDigits = %s\n  MaxLen = %d\nINVARIANT WsInvariant\nINVARIANT DigitScriptInvariant\nCHECK_DEADLOCK FALSE\n"
+CFG = ("SPECIFICATION Spec\nCONSTANTS\n  AsciiOnlyDigits = %s\n  TrimNeedsBothEnds = %s\n  MaxLen = %d\nINVARIANT WsInvariant\nINVARIANT ComposedInvariant\nINVARIANT PadInvariant\n"
+       "INVARIANT DigitScriptInvariant\nCHECK_DEADLOCK FALSE\n")
 BASE = [2021, 6, 15, 12, 0, 0, 0]
 
 
@@ -34,7 +35,11 @@ def ws_variants(s):
             ("mixed", s.replace(" ", " \t\xa0 ")), ("colon", s + ":"), ("pad-tabs", "\t" + s + "\n"),
             # however much of it there is (the text node of an indented template, fixed-width columns)
             ("pad-indented", INDENT + s + INDENT), ("pad-600", " " * 600 + s), ("pad-nbsp-600", s + "\xa0" * 600),
-            ("run-100", s.replace(" ", " " * 100) if " " in s else "\n\t\t\t\t" * 110 + s + "\n")]
+            ("run-100", s.replace(" ", " " * 100) if " " in s else "\n\t\t\t\t" * 110 + s + "\n"),
+            # two members of the family one after the other (each keeps the result, so both do): the colon of a label
+            # ('Posted: 5 March 2015: ') followed by the whitespace of the markup around it
+            ("colon+pad-right", s + ": "), ("colon+newline", s + ":\n"), ("colon+nbsp", s + ":\xa0"), ("pad-left+colon", "  " + s + ":"),
+            ("colon+pad", " " + s + ":  "), ("double+colon", s.replace(" ", "  ") + ":")]
 
 
 INDENT = "\n" + ("\n" + " " * 24) * 12
@@ -42,9 +47,13 @@ INDENT = "\n" + ("\n" + " " * 24) * 12
 
 def run(ctx):
     rng = ctx.rng
-    mc = ctx.tlc("P_C18", CFG % ("FALSE", 6 if ctx.quick() else 7), timeout=3000, name="P_C18_repaired")
+    mc = ctx.tlc("P_C18", CFG % ("FALSE", "FALSE", 6 if ctx.quick() else 7), timeout=3000, name="P_C18_repaired")
     mc.require_clean()
-    pinned = ctx.tlc("P_C18", CFG % ("TRUE", 4), timeout=600, name="P_C18_pinned")
+    pinned = ctx.tlc("P_C18", CFG % ("TRUE", "FALSE", 4), timeout=600, name="P_C18_pinned")
+    # the pinned trim rule (whitespace at BOTH ends or none is removed): '1: ' keeps its colon
+    pinned_trim = ctx.tlc("P_C18", CFG % ("FALSE", "TRUE", 4), timeout=600, name="P_C18_pinned_trim")
+    if "ComposedInvariant" not in pinned_trim.invariant_violated and "PadInvariant" not in pinned_trim.invariant_violated:
+        raise core.Machinery("the pinned trim rule of the sanitiser is not refuted")
     if mc.invariant_violated:
         ctx.violation({"tlc_counterexample": mc.counterexample()[-1:]}, "TLC refutes %s on the sanitiser model" % mc.invariant_violated)
     if not pinned.invariant_violated:
@@ -84,6 +93,11 @@ def run(ctx):
                         body += rng.choice([".", ","]) + "".join(rng.choice("0123456789") for _ in range(rng.randint(1, 6)))
             english.append(body)
         strings = [(s, ["en"]) for s in english] + [(s, None) for s in english[:8]]
+        # strings that already END in a colon (the rewritings are applied to them as they are), and the forms the
+        # language-specific rules of sanitize_date look at, with the language left to detection
+        strings += [("12 March 2014 09:16:", ["en"]), ("5 March 2015:", ["en"]), ("2 hours ago:", ["en"]), ("10:30:", ["en"]), ("Posted on: 12 Jan 2015:", ["en"]),
+                    ("13.11.2015. u 10:30", None), ("12.03.2014. u 10:00", None), ("12.03.2014. u 10:00", ["hr"]), ("5 \u0444\u0435\u0432\u0440\u0430\u043b\u044f 2015 \u0433.", None),
+                    ("12 \u044f\u043d\u0432\u0430\u0440\u044f 2015, \u0432 10:30", None)]
         PARSER_SETS = [["timestamp", "negative-timestamp", "relative-time", "custom-formats", "absolute-time"], ["no-spaces-time", "absolute-time"],
                        ["timestamp", "no-spaces-time"]]
         special = []
@@ -133,7 +147,7 @@ def run(ctx):
             index.append((c, v))
             records.append({"tid": tid, "kind": v["kind"], "base": v["base"], "rew": v["rew"], "exc": v["exc"], "cls": v["cls"], "sancls": v["sancls"],
                             "plain": v["plain"]})
-    tuples, gen = core.validate_traces(ctx, "T_C18", "SPECIFICATION TSpec\nCONSTANT AsciiOnlyDigits = FALSE\nPOSTCONDITION Consumed\nCHECK_DEADLOCK FALSE\n", records)
+    tuples, gen = core.validate_traces(ctx, "T_C18", "SPECIFICATION TSpec\nCONSTANT AsciiOnlyDigits = FALSE\nCONSTANT TrimNeedsBothEnds = FALSE\nPOSTCONDITION Consumed\nCHECK_DEADLOCK FALSE\n", records)
     for t in tuples["REJECT"]:
         _, tid, kind, verdict, extra = t[:5]
         c, v = index[tid]
@@ -146,7 +160,7 @@ def run(ctx):
         "states": mc.distinct, "transitions": mc.generated, "traces_validated_against_impl": len(records),
         "evaluations": len(records), "distinct_nontrivial": len({(c["s"], v["v"]) for c, v in index if v["base"] and v["base"][0]}),
         "rule": "case = (string, language, one rewriting: whitespace family or a Unicode decimal-digit block); non-trivial = distinct pair whose original parses to a datetime",
-        "exhaustive": False, "digit_blocks": len(blocks), "strings": len(cases), "pinned_period_rule_refuted": pinned.invariant_violated,
+        "exhaustive": False, "digit_blocks": len(blocks), "strings": len(cases), "pinned_period_rule_refuted": pinned.invariant_violated, "pinned_trim_rule_refuted": pinned_trim.invariant_violated,
         "samples": [{"original": c["s"], "rewritten": v["v"], "kind": v["kind"], "base": v["base"], "rewritten_result": v["rew"]} for c, v in index[:: max(1, len(index) // 6)]][:6],
     }
     return core.finish(ctx, LEVEL, cov, assumptions=[
